@@ -1,5 +1,8 @@
 """tr_switch: the shape of the global build-time-validation switch, read from the source with `ast` (never imported):
-  - neuroml/build_time_validation.py statement by statement ("doc", "NAME = True/False", anything else "other: <source>");
+  - neuroml/build_time_validation.py: how ENABLED is bound ("ENABLED = True/False") and everything that is not provably unrelated
+    (imports, classes, decorated functions, functions that mention ENABLED / declare globals / touch module or thread-state
+    machinery, other statements) as "other: <source>" / "function f touches ..."; unrelated plain functions, literal constants,
+    the docstring and comments are tolerated;
   - the helpers enable_/disable_/get_build_time_validation of neuroml/__init__.py: their bodies without the docstring and
     the logger calls with constant arguments, as "build_time_validation.ENABLED = <bool>" / "return build_time_validation.ENABLED"
     / "other: <source>" (decorators, parameters, a second definition or a later rebinding are reported too);
@@ -26,14 +29,55 @@ def is_doc(s):
     return isinstance(s, ast.Expr) and isinstance(s.value, ast.Constant) and isinstance(s.value.value, str)
 
 
+MACHINERY = {"threading", "_thread", "local", "contextvars", "ContextVar", "property", "types", "ModuleType", "sys", "modules",
+             "__class__", "globals", "locals", "vars", "setattr", "delattr", "__dict__", "__getattr__", "__setattr__", "__dir__",
+             "importlib", "builtins", "__builtins__", "exec", "eval", "compile", "__import__"}
+
+
+def touches_switch(n):
+    """does the subtree mention ENABLED (name, attribute, string), declare globals, or use module/thread-state machinery"""
+    why = set()
+    for x in ast.walk(n):
+        if isinstance(x, (ast.Global, ast.Nonlocal)):
+            why.add("global " + ", ".join(x.names))
+        elif isinstance(x, ast.Name) and (x.id == "ENABLED" or x.id in MACHINERY):
+            why.add(x.id)
+        elif isinstance(x, ast.Attribute) and (x.attr == "ENABLED" or x.attr in MACHINERY):
+            why.add("." + x.attr)
+        elif isinstance(x, ast.Constant) and isinstance(x.value, str) and x.value == "ENABLED":
+            why.add("'ENABLED'")
+        elif isinstance(x, (ast.Import, ast.ImportFrom)):
+            why.add("import")
+    return sorted(why)
+
+
+def is_literal(e):
+    try:
+        ast.literal_eval(e)
+        return True
+    except Exception:  # noqa
+        return False
+
+
 def module_shape(tree):
+    """what matters in neuroml/build_time_validation.py: how ENABLED is bound at module level, and anything that could make the
+    name something else than a plain module attribute.  Tolerated (not reported): the docstring, comments, `pass`, module-level
+    functions without decorators that neither mention ENABLED nor declare globals nor touch module/thread-state machinery
+    (MACHINERY), and assignments of literals to other plain names.  Everything else is reported verbatim."""
     out = []
     for i, s in enumerate(tree.body):
-        if is_doc(s) and i == 0:
-            out.append("doc")
-        elif (isinstance(s, ast.Assign) and len(s.targets) == 1 and isinstance(s.targets[0], ast.Name)
-              and isinstance(s.value, ast.Constant) and type(s.value.value) is bool):
-            out.append("%s = %s" % (s.targets[0].id, s.value.value))
+        if is_doc(s) or isinstance(s, ast.Pass):
+            continue
+        if (isinstance(s, ast.Assign) and len(s.targets) == 1 and isinstance(s.targets[0], ast.Name) and s.targets[0].id == "ENABLED"
+                and isinstance(s.value, ast.Constant) and type(s.value.value) is bool):
+            out.append("ENABLED = %s" % s.value.value)
+        elif isinstance(s, ast.FunctionDef) and not s.decorator_list and s.name not in MACHINERY and s.name != "ENABLED":
+            why = touches_switch(s)
+            if why:
+                out.append("function %s touches %s" % (s.name, ", ".join(why)))
+        elif (isinstance(s, ast.Assign) and all(isinstance(t, ast.Name) and t.id != "ENABLED" and t.id not in MACHINERY for t in s.targets)
+              and is_literal(s.value)):
+            continue
         else:
             out.append("other: " + src(s))
     return out
